@@ -321,7 +321,7 @@ def _fdx_eigensystem_partial(bl, np, spla):
                              "fallback-to-scipy")}
     dense = np.eye(4)
     linop = spla.aslinearoperator(np.eye(300))
-    big = np.eye(300)
+    big = np.eye(100)  # d**2/k = 5000: between the two thresholds (dense solver iff a shift is given)
     linopB = spla.aslinearoperator(np.eye(4))  # a metric known only through its action
     keys = list(bl._EIGS_METHODS)
     backends = [None, "auto", "AUTO"] + keys + [k.lower() for k in keys]
@@ -695,7 +695,7 @@ def _frame_autoblock():
 
 def provider(tier=None, only=None):
     if only == "frame":  # (selftest shortcut: the ast analyses do not need quimb imported)
-        return _frame_sqrtm() + _frame_autoblock()
+        return _frame_sqrtm() + _frame_autoblock() + _frame_eigvalsh_autoblocked()
     import numpy as np
     import scipy.sparse.linalg as spla
     import quimb.linalg.base_linalg as bl
@@ -705,6 +705,329 @@ def provider(tier=None, only=None):
     obs += _fdx_norm(bl, np)
     obs += _fdx_svds(bl, np, spla)
     obs += _fdx_fn_dispatch(bl, np)
+    obs += _fdx_eigs_scipy(np)
+    obs += _fdx_eig_numpy(np)
+    obs += _fdx_projection(np)
     obs += _frame_sqrtm()
     obs += _frame_autoblock()
+    obs += _frame_eigvalsh_autoblocked()
+    return obs
+
+
+# ---------------------------------------------------------------------------------------------------- eigs_scipy
+
+SL = "quimb/linalg/scipy_linalg.py"
+
+
+def _fdx_eigs_scipy(np):
+    """which/sigma translation for scipy's shift-invert mode, option threading, paired sorting"""
+    import itertools
+    import quimb.linalg.scipy_linalg as sl
+    fn = f"{SL}::eigs_scipy"
+    t0 = time.time()
+    bad = {k: None for k in ("which-translation(shift-invert)", "settings-threaded", "hermitian-flag-picks-eigsh/eigs",
+                             "values-and-vectors-sorted-together")}
+    A, B, extra = np.eye(3), _Sentinel("B"), _Sentinel("extra")
+    LK = np.array([3.0, 1.0, 2.0])
+    VK = np.array([[30.0, 10.0, 20.0], [31.0, 11.0, 21.0], [32.0, 12.0, 22.0]])  # column j belongs to value LK[j]
+    n = 0
+    rules = _RULES + ["tr", "sa"]
+    for which, sigma, ih, rv, so, tol, Bm in itertools.product(rules, (None, 0.3), (True, False), (True, False),
+                                                               (True, False), (None, 1e-3), (None, B)):
+        n += 1
+        calls = []
+
+        def rec(name):
+            def f(A_, **kw):
+                calls.append((name, A_, kw))
+                return (LK.copy(), VK.copy()) if kw.get("return_eigenvectors") else LK.copy()
+            return f
+
+        with _Patch() as p:
+            p.attr(sl, "spla", NS(eigsh=rec("eigsh"), eigs=rec("eigs"), LinearOperator=sl.spla.LinearOperator))
+            try:
+                res, exc = sl.eigs_scipy(A, 2, B=Bm, which=which, return_vecs=rv, sigma=sigma, isherm=ih, sort=so, tol=tol,
+                                         ncv=extra), None
+            except Exception as e:  # noqa
+                res, exc = None, e
+        inp = dict(which=which, sigma=sigma, isherm=ih, return_vecs=rv, sort=so, tol=tol, B=repr(Bm))
+        if exc is not None or len(calls) != 1:
+            bad["settings-threaded"] = bad["settings-threaded"] or dict(inp, exc=repr(exc), calls=len(calls))
+            continue
+        name, A_, kw = calls[0]
+        # shift-invert: with a shift sigma scipy's `which` refers to 1 / (lambda - sigma): the eigenvalues NEAREST the
+        # target are the LARGEST MAGNITUDE ones there; without a shift the rule goes through unchanged
+        if which is None:
+            want_which = "SA" if sigma is None else "LM"
+        elif sigma is not None and which.upper() in ("TM", "TR", "TI"):
+            want_which = "LM"
+        else:
+            want_which = which
+        if kw.get("which") != want_which:
+            bad["which-translation(shift-invert)"] = bad["which-translation(shift-invert)"] or dict(
+                inp, forwarded=kw.get("which"), expected=want_which)
+        want = dict(k=2, M=Bm, which=want_which, sigma=sigma, return_eigenvectors=rv, tol=0 if tol is None else tol, ncv=extra)
+        if A_ is not A and not np.array_equal(A_, A) or kw != want:
+            bad["settings-threaded"] = bad["settings-threaded"] or dict(inp, forwarded=repr(kw), expected=repr(want))
+        if name != ("eigsh" if ih else "eigs"):
+            bad["hermitian-flag-picks-eigsh/eigs"] = bad["hermitian-flag-picks-eigsh/eigs"] or dict(inp, called=name)
+        lk = np.asarray(res[0] if rv else res)
+        order = [1, 2, 0] if so else [0, 1, 2]
+        ok = np.array_equal(lk, LK[order]) and (not rv or np.array_equal(np.asarray(res[1]), VK[:, order]))
+        if rv:
+            ok = ok and isinstance(res, tuple) and len(res) == 2
+        if not ok:
+            bad["values-and-vectors-sorted-together"] = bad["values-and-vectors-sorted-together"] or dict(inp, result=repr(res))
+    return [_ob(fn, f"fdx-{k}[{n} option tuples]", "fdx", v is None, t0, v) for k, v in bad.items()]
+
+
+# ---------------------------------------------------------------------------------------------------- eig_numpy / autoblock
+
+NL = "quimb/linalg/numpy_linalg.py"
+
+
+def _fdx_eig_numpy(np):
+    import itertools
+    import numpy.linalg as nla
+    import quimb.linalg.numpy_linalg as nl
+    import quimb.linalg.autoblock as ab
+    obs = []
+    t0 = time.time()
+    LK = np.array([3.0, 1.0, 2.0])
+    VK = np.array([[30.0, 10.0, 20.0], [31.0, 11.0, 21.0], [32.0, 12.0, 22.0]])  # column j belongs to value LK[j]
+    A = np.eye(3)
+    # the (return_vecs, isherm) -> numpy routine table itself
+    want_tab = {(True, True): nla.eigh, (True, False): nla.eig, (False, True): nla.eigvalsh, (False, False): nla.eigvals}
+    badt = {repr(k): getattr(nl._NUMPY_EIG_FUNCS.get(k), "__name__", None) for k, f in want_tab.items()
+            if nl._NUMPY_EIG_FUNCS.get(k) is not f}
+    obs.append(_ob(f"{NL}::eig_numpy", "fdx-solver-table-(return_vecs,isherm)", "fdx", not badt and len(nl._NUMPY_EIG_FUNCS) == 4,
+                   t0, dict(wrong_entries=badt)))
+    t0 = time.time()
+    bad = {k: None for k in ("routes-by-(return_vecs,isherm)", "values-and-vectors-sorted-together", "autoblock-flags-threaded")}
+    for so, ih, rv, au in itertools.product((True, False, None), (True, False, None), (True, False, None), (True, False, None)):
+        calls = []
+
+        def rec(key):
+            def f(A_):
+                calls.append((key, A_))
+                return (LK.copy(), VK.copy()) if key[0] else LK.copy()
+            return f
+
+        def auto(A_, **kw):
+            calls.append(("autoblock", A_, kw))
+            return ("autoblocked",)
+
+        kw = {k: v for k, v in dict(sort=so, isherm=ih, return_vecs=rv, autoblock=au).items() if v is not None}
+        with _Patch() as p:
+            for key in list(nl._NUMPY_EIG_FUNCS):
+                p.item(nl._NUMPY_EIG_FUNCS, key, rec(key))
+            p.attr(nl, "eigensystem_autoblocked", auto)
+            try:
+                res, exc = nl.eig_numpy(A, **kw), None
+            except Exception as e:  # noqa
+                res, exc = None, e
+        # documented defaults: sort=True, isherm=True, return_vecs=True, autoblock=False
+        so_, ih_, rv_, au_ = (True if so is None else so), (True if ih is None else ih), (True if rv is None else rv), bool(au)
+        inp = dict(kwargs=repr(kw))
+        if au_:
+            if exc is not None or calls != [("autoblock", A, dict(sort=so_, isherm=ih_, return_vecs=rv_))] or res != ("autoblocked",):
+                bad["autoblock-flags-threaded"] = bad["autoblock-flags-threaded"] or dict(inp, exc=repr(exc), calls=repr(calls))
+            continue
+        if exc is not None or len(calls) != 1 or calls[0][0] != (rv_, ih_) or calls[0][1] is not A:
+            bad["routes-by-(return_vecs,isherm)"] = bad["routes-by-(return_vecs,isherm)"] or dict(
+                inp, exc=repr(exc), calls=repr([c[0] for c in calls]), expected=(rv_, ih_))
+            continue
+        order = [1, 2, 0] if so_ else [0, 1, 2]
+        lk = np.asarray(res[0] if rv_ else res)
+        ok = np.array_equal(lk, LK[order]) and (not rv_ or (isinstance(res, tuple) and len(res) == 2
+                                                             and np.array_equal(np.asarray(res[1]), VK[:, order])))
+        if not ok:
+            bad["values-and-vectors-sorted-together"] = bad["values-and-vectors-sorted-together"] or dict(inp, result=repr(res))
+    obs += [_ob(f"{NL}::eig_numpy", f"fdx-{k}[81 option tuples]", "fdx", v is None, t0, v) for k, v in bad.items()]
+    # eigensystem_autoblocked: flag dispatch
+    t0 = time.time()
+    badd = None
+    for so, rv, ih in itertools.product((True, False, None), (True, False, None), (True, False, None)):
+        calls = []
+
+        def eh(A_, **kw):
+            calls.append(("eigh", A_, kw))
+            return LK, VK
+
+        def evh(A_, **kw):
+            calls.append(("eigvalsh", A_, kw))
+            return LK
+
+        kw = {k: v for k, v in dict(sort=so, return_vecs=rv, isherm=ih).items() if v is not None}
+        with _Patch() as p:
+            p.attr(ab, "_eigh_autoblocked", eh)
+            p.attr(ab, "_eigvalsh_autoblocked", evh)
+            try:
+                res, exc = ab.eigensystem_autoblocked(A, **kw), None
+            except Exception as e:  # noqa
+                res, exc = None, e
+        so_, rv_, ih_ = (True if so is None else so), (True if rv is None else rv), (True if ih is None else ih)
+        if not ih_:
+            ok = isinstance(exc, NotImplementedError) and not calls  # refuses rather than return a wrong spectrum
+        elif rv_:
+            ok = exc is None and calls == [("eigh", A, dict(sort=so_))] and isinstance(res, tuple) and len(res) == 2 \
+                and res[0] is LK and np.array_equal(np.asarray(res[1]), VK)
+        else:
+            ok = exc is None and calls == [("eigvalsh", A, dict(sort=so_))] and res is LK
+        if not ok:
+            badd = badd or dict(kwargs=repr(kw), exc=repr(exc), calls=repr([c[0] for c in calls]), result=repr(res))
+    obs.append(_ob(f"{AB}::eigensystem_autoblocked", "fdx-flag-dispatch[27 option tuples]", "fdx", badd is None, t0, badd))
+    return obs
+
+
+def _frame_eigvalsh_autoblocked():
+    t0 = time.time()
+    fn = _fn_node(AB, "_eigvalsh_autoblocked")
+    bad = None
+    loops = [n for n in ast.walk(fn) if isinstance(n, ast.For) and "gs" in _u(n.iter)]
+    if len(loops) != 1:
+        bad = dict(reason="block loop not found")
+    else:
+        lp = loops[0]
+        tgt = lp.target
+        g = _u(tgt.elts[-1]) if isinstance(tgt, ast.Tuple) else _u(tgt)
+        body = [_u(s) for s in ast.walk(lp) if isinstance(s, (ast.Assign, ast.Expr))]
+        need = [f"el[{g}[0]] = A[{g}[0], {g}[0]].real", f"el[{g}] = np.linalg.eigvalsh(subselect(A, {g}))"]
+        writes = [b for b in body if b.startswith("el[")]
+        if sorted(writes) != sorted(need):
+            bad = dict(writes=writes, expected=need)
+    ret = [_u(n.value) for n in ast.walk(fn) if isinstance(n, ast.Return)]
+    if bad is None and sorted(ret) != ["el", "np.sort(el)"]:
+        bad = dict(returns=ret)
+    alloc = [_u(n.value) for n in ast.walk(fn) if isinstance(n, ast.Assign) and _u(n.targets[0]) == "el"]
+    if bad is None and alloc != ["np.empty(d)"]:
+        bad = dict(allocation=alloc)
+    return [_ob(f"{AB}::_eigvalsh_autoblocked", "frame-block-values-scattered-with-the-blocks-own-index-list-real-output", "frame",
+                bad is None, t0, bad)]
+
+
+# ---------------------------------------------------------------------------------------------------- subspace projection P
+
+class _Tok:
+    """a matrix known only as a word in the free *-algebra: product of generators, each possibly transposed and / or
+    complex-conjugated.  (X Y)^T = Y^T X^T, conj(X Y) = conj X conj Y, X^H = conj(X)^T -- so P^H, P^T, conj(P) and P are
+    four DIFFERENT words: an identity between words holds for all complex matrices iff the words are equal"""
+    __array_ufunc__ = None
+    __array_priority__ = 1000
+    dtype = complex
+
+    def __init__(self, factors, shape):
+        self.factors, self.shape = list(factors), tuple(shape)
+
+    @staticmethod
+    def gen(name, shape):
+        return _Tok([(name, False, False)], shape)
+
+    @property
+    def T(self):
+        return _Tok([(n, not t, c) for n, t, c in reversed(self.factors)], self.shape[::-1])
+
+    def transpose(self):
+        return self.T
+
+    def conj(self):
+        return _Tok([(n, t, not c) for n, t, c in self.factors], self.shape)
+
+    conjugate = conj
+
+    @property
+    def H(self):
+        return self.conj().T
+
+    def __matmul__(self, o):
+        if isinstance(o, _Tok):
+            return _Tok(self.factors + o.factors, (self.shape[0], o.shape[-1]))
+        return _Tok(self.factors + [("array", o)], (self.shape[0], o.shape[-1]))
+
+    def __rmatmul__(self, o):
+        return _Tok([("array", o)] + self.factors, (o.shape[0], self.shape[-1]))
+
+    def reshape(self, *shape):
+        return self
+
+    def word(self):
+        return [f if f[0] != "array" else ("array",) for f in self.factors]
+
+
+_PDAG_A_P = [("P", True, True), ("A", False, False), ("P", False, False)]
+
+
+def _fdx_projection(np):
+    import itertools
+    import quimb as qu
+    import quimb.linalg.numpy_linalg as nl
+    import quimb.linalg.scipy_linalg as sl
+    LK = np.array([3.0, 1.0, 2.0])
+    VK = np.array([[30.0, 10.0, 20.0], [31.0, 11.0, 21.0], [32.0, 12.0, 22.0]])
+    obs = []
+
+    def judge(fname, seen_A, res, rv, so, exc, extra_ok=True, extra_model=None, which=None):
+        if exc is not None:
+            return dict(exc=repr(exc))
+        if not isinstance(seen_A, _Tok) or seen_A.word() != _PDAG_A_P:
+            return dict(reason="operator handed to the solver is not P^dagger A P",
+                        got=repr(seen_A.word() if isinstance(seen_A, _Tok) else seen_A), expected=repr(_PDAG_A_P))
+        if not extra_ok:
+            return extra_model
+        if rv:
+            order = [1, 2, 0] if so else [0, 1, 2]
+            if fname == "eigs_numpy" and not so:  # the dense solver returns the selection in rule order
+                order = {"SA": [1, 2, 0], "LA": [0, 2, 1]}[which]
+            v = res[1]
+            v = v.item() if isinstance(v, np.ndarray) and v.dtype == object and v.ndim == 0 else v
+            if not (isinstance(v, _Tok) and v.word() == [("P", False, False), ("array",)]
+                    and np.array_equal(v.factors[1][1], VK[:, order]) and np.array_equal(np.asarray(res[0]), LK[order])):
+                return dict(reason="vectors not mapped back as P @ v (columns paired with the values)",
+                            got=repr(v.word() if isinstance(v, _Tok) else v))
+        return None
+
+    for fname, mod in (("eigs_scipy", sl), ("eigs_lobpcg", sl), ("eigs_numpy", nl)):
+        t0 = time.time()
+        bad = None
+        n = 0
+        for rv, so, ih, which, lazy in itertools.product((True, False), (True, False), (True, False), ("SA", "LA"), (False, True)):
+            if fname == "eigs_lobpcg" and not ih:
+                continue
+            n += 1
+            A, P = _Tok.gen("A", (5, 5)), _Tok.gen("P", (5, 3))
+            Parg = qu.Lazy(lambda P=P: P, shape=(5, 3)) if lazy else P
+            seen = {}
+
+            def solver(*a, **kw):
+                seen["A"] = a[0] if a else kw.get("A")
+                seen["kw"] = kw
+                many = kw.get("return_eigenvectors", True) if fname == "eigs_scipy" else (rv or fname == "eigs_lobpcg")
+                return (LK.copy(), VK.copy()) if many else LK.copy()
+
+            v0 = np.ones((5, 3))
+            with _Patch() as p:
+                if mod is sl:
+                    p.attr(sl, "spla", NS(eigsh=solver, eigs=solver, lobpcg=solver, LinearOperator=sl.spla.LinearOperator))
+                else:
+                    for key in list(nl._DENSE_EIG_METHODS):
+                        p.item(nl._DENSE_EIG_METHODS, key, solver)
+                try:
+                    kw = dict(which=which, return_vecs=rv, sort=so, isherm=ih, P=Parg)
+                    if fname == "eigs_lobpcg":
+                        kw["v0"] = v0
+                    res, exc = getattr(mod, fname)(A, 3, **kw), None
+                except Exception as e:  # noqa
+                    res, exc = None, e
+            extra_ok, extra_model = True, None
+            if fname == "eigs_lobpcg" and exc is None:
+                X = seen["kw"].get("X")
+                extra_ok = isinstance(X, _Tok) and X.word() == [("P", True, True), ("array",)] and X.factors[1][1] is v0
+                extra_model = dict(reason="initial vectors not projected as P^dagger v0",
+                                   got=repr(X.word() if isinstance(X, _Tok) else X))
+            m = judge(fname, seen.get("A"), res, rv, so, exc, extra_ok, extra_model, which)
+            if m is not None:
+                bad = bad or dict(m, fn=fname, return_vecs=rv, sort=so, isherm=ih, which=which, lazy_P=lazy)
+        relp = SL if mod is sl else NL
+        obs.append(_ob(f"{relp}::{fname}", f"fdx-projection-compresses-as-Pdag.A.P-and-maps-vectors-back-by-P[{n} option tuples]",
+                       "fdx", bad is None, t0, bad, backend="exhaustive+free-*-algebra-words"))
     return obs
